@@ -412,9 +412,10 @@ class LogicalLinkController(object):
         finally:
             # shutdown local services
             for i in range(63, -1, -1):
-                if not self.sap[i] is None:
+                sap = self.sap[i]  # may be removed by a closing socket
+                if sap is not None:
                     log.debug("closing service access point %d" % i)
-                    self.sap[i].shutdown()
+                    sap.shutdown()
                     self.sap[i] = None
             self.link.SHUTDOWN = True
 
